@@ -52,6 +52,8 @@ def gen(rng, tier):
         spec["backward"] = {"due": rng.random() < 0.3, "reverse": rng.random() < 0.7}
     if rng.random() < 0.06 and not spec.get("history") and not spec.get("from_json"):
         spec["model"]["comp_copies"] = True  # components are shallow copies of one template object
+    elif rng.random() < 0.06 and not spec.get("history") and not spec.get("from_json") and not spec.get("backward") and not spec.get("appended"):
+        spec["cfg"]["init_log"] = False  # the very first run of freshly built objects keeps "the logs" (there are none yet)
     if rng.random() < 0.1 and not any(t.get("nf") for t in spec["model"]["tasks"]):
         spec["model"]["comp_ctor_tasks"] = True  # BaseComponent(targeted_task_list=[...]): the tasks do not know their component
         if spec.get("history") is None and rng.random() < 0.6:
